@@ -17,6 +17,12 @@ INFO = {
  "C18": ("EIA word count floor(LENGTH/32)+1+2 instead of ceil(LENGTH/32)+2", "LENGTH a multiple of 32 (incl. 0)"),
  "C19": ("decrypt_asn1 right-pads C1.y to 32 bytes instead of left-padding it", "an ephemeral point whose y has a leading zero byte (1/256)"),
  "C20": ("Sm2PrivateKey::decrypt length guard `<=` became `<`", "a ciphertext of exactly C1 || 32 bytes with a valid C1: panic in xor_bytes"),
+ "C07b": ("CBC decrypt bounds the PKCS#7 pad byte by the ciphertext length instead of the block size", "a ciphertext of two or more blocks whose last decrypted byte is 17..min(255, length): accepted and truncated instead of an error"),
+ "C08b": ("ZUC S-box S0[0x17] changed from 0xa5 to 0xa6", "a byte 0x17 entering S0 inside F (the EEA/EIA vectors in the crate never do; the three published keystream vectors do)"),
+ "C10b": ("SM9 decrypt compares only min(|C2|, 32) bytes of C3", "a message shorter than 32 bytes and a C3 modified at a byte index >= |M|"),
+ "C11c": ("u256_add drops the carry produced when the incoming carry is added to a limb", "a limb with a[i] + b[i] = 2^64 - 1 and a carry coming in from below (2^-64 per limb for random operands)"),
+ "C13c": ("mod_n_mul: the borrow of `z[2] - carry` is dropped in the Barrett subtraction", "limb 2 of the 512-bit product exactly 0 with a borrow from limbs 0..1 (about 2^-65)"),
+ "C15b": ("exchange_3 compares S_B with a loop over 0..len-1 (byte 31 skipped)", "S_B altered in its last byte only"),
 }
 rows = []
 for s in sorted(os.listdir(os.path.join(V, "seeded"))):
@@ -25,7 +31,7 @@ for s in sorted(os.listdir(os.path.join(V, "seeded"))):
         continue
     mp = os.path.join(d, "meta.json")
     meta = json.load(open(mp)) if os.path.exists(mp) else {}
-    prop = s.rstrip("b")
+    prop = s.rstrip("bc")
     if s in INFO:
         meta.update({"property": prop, "change": INFO[s][0], "needs_to_manifest": INFO[s][1]})
     meta.setdefault("written_by", "independent sub-agent given only the property text and a scratch worktree")
